@@ -514,8 +514,22 @@ def run_property(ctx):
         if spec.get('srcloops'):
             from . import srcloops
             loops = srcloops.run(ctx, spec['srcloops'])
+        funs = None
+        if spec.get('srcfun'):
+            from . import srcfun
+            funs = srcfun.run(ctx)
         for s in spec['suites']:
             run_suite(ctx, s)
+        if funs:
+            status, detail, info = funs
+            ctx.suite_stats.append(dict(suite='S-srcfun', cases=0, distinct_nontrivial=0, mismatches=0, ops={}, samples=[],
+                                        rule='no inputs: the connectives of src/bdd.rs, translated, are proved equal to the model functions for all operands', exhaustive=False, profile='-', source_functions=info))
+            if status == 'obligation-failed' and not any(not no_input for _, no_input in ctx.violations):
+                ctx.violation({'kind': 'proof-obligation', 'key': 'srcfun:' + ctx.pid,
+                               'broken': 'an obligation about the connectives regenerated from src/bdd.rs no longer checks (src_bnot_ok / src_band_ok / src_bor_ok / *_guards_total / src_<op>_ok)',
+                               'detail': detail}, no_input=True)
+            elif status == 'shape-not-recognised':
+                ctx.notes.append('source functions: the translator does not recognise the shape of the connectives any more (%s); the obligations were not re-derived in this run' % detail)
         if loops:
             status, detail, info = loops
             ctx.suite_stats.append(dict(suite='S-srcloops', cases=0, distinct_nontrivial=0, mismatches=0, ops={}, samples=[],
